@@ -90,8 +90,11 @@ fn stmt_uses_json_stringify(stmt: &Statement) -> bool {
         Statement::Expr(expr) => expr_uses_json_stringify(&expr.node),
         Statement::Assignment(assign) => expr_uses_json_stringify(&assign.value.node),
         Statement::CompoundAssignment(assign) => expr_uses_json_stringify(&assign.value.node),
-        Statement::FieldAssignment(assign) => expr_uses_json_stringify(&assign.value.node),
-        Statement::IndexAssignment(assign) => expr_uses_json_stringify(&assign.value.node),
+        Statement::FieldAssignment(assign) => expr_uses_json_stringify(&assign.object.node) || expr_uses_json_stringify(&assign.value.node),
+        Statement::IndexAssignment(assign) => {
+            expr_uses_json_stringify(&assign.object.node) || expr_uses_json_stringify(&assign.index.node) || expr_uses_json_stringify(&assign.value.node)
+        }
+        Statement::ChainedAssignment(assign) => expr_uses_json_stringify(&assign.value.node),
         Statement::TupleUnpack(unpack) => expr_uses_json_stringify(&unpack.value.node),
         Statement::TupleAssign(assign) => expr_uses_json_stringify(&assign.value.node),
         Statement::Return(Some(expr)) => expr_uses_json_stringify(&expr.node),
@@ -234,8 +237,11 @@ fn stmt_uses_async(stmt: &Statement) -> bool {
         Statement::Expr(expr) => expr_uses_async(&expr.node),
         Statement::Assignment(assign) => expr_uses_async(&assign.value.node),
         Statement::CompoundAssignment(assign) => expr_uses_async(&assign.value.node),
-        Statement::FieldAssignment(assign) => expr_uses_async(&assign.value.node),
-        Statement::IndexAssignment(assign) => expr_uses_async(&assign.value.node),
+        Statement::FieldAssignment(assign) => expr_uses_async(&assign.object.node) || expr_uses_async(&assign.value.node),
+        Statement::IndexAssignment(assign) => {
+            expr_uses_async(&assign.object.node) || expr_uses_async(&assign.index.node) || expr_uses_async(&assign.value.node)
+        }
+        Statement::ChainedAssignment(assign) => expr_uses_async(&assign.value.node),
         Statement::TupleUnpack(unpack) => expr_uses_async(&unpack.value.node),
         Statement::TupleAssign(assign) => expr_uses_async(&assign.value.node),
         Statement::Return(Some(expr)) => expr_uses_async(&expr.node),
@@ -405,8 +411,11 @@ fn stmt_uses_list_helpers(stmt: &Statement) -> bool {
         Statement::Expr(expr) => expr_uses_list_helpers(&expr.node),
         Statement::Assignment(assign) => expr_uses_list_helpers(&assign.value.node),
         Statement::CompoundAssignment(assign) => expr_uses_list_helpers(&assign.value.node),
-        Statement::FieldAssignment(assign) => expr_uses_list_helpers(&assign.value.node),
-        Statement::IndexAssignment(assign) => expr_uses_list_helpers(&assign.value.node),
+        Statement::FieldAssignment(assign) => expr_uses_list_helpers(&assign.object.node) || expr_uses_list_helpers(&assign.value.node),
+        Statement::IndexAssignment(assign) => {
+            expr_uses_list_helpers(&assign.object.node) || expr_uses_list_helpers(&assign.index.node) || expr_uses_list_helpers(&assign.value.node)
+        }
+        Statement::ChainedAssignment(assign) => expr_uses_list_helpers(&assign.value.node),
         Statement::TupleUnpack(unpack) => expr_uses_list_helpers(&unpack.value.node),
         Statement::TupleAssign(assign) => expr_uses_list_helpers(&assign.value.node),
         Statement::Return(Some(expr)) => expr_uses_list_helpers(&expr.node),
